@@ -298,7 +298,7 @@ class RTL(keras.layers.Layer):
         lattice_size=self.lattice_size, input_shape=input_shape)
     # Convert kernel regularizers to proper form (tuples).
     kernel_regularizer = self.kernel_regularizer
-    if isinstance(self.kernel_regularizer, list):
+    if isinstance(self.kernel_regularizer, list) and self.kernel_regularizer:
       if isinstance(self.kernel_regularizer[0], six.string_types):
         kernel_regularizer = tuple(self.kernel_regularizer)
       else:
